@@ -711,7 +711,7 @@ Definition ok (c : casety) : nat :=
   let '(root, ops, steps, final, r1, r2, r3) := c in check_history the_cfg root ops steps final r1 r2 r3.
 '''
 
-FLAGS = ['style_skip', 'add_ns', 'default_ns']
+FLAGS = ['style_skip', 'add_ns', 'default_ns', 'nod_empty']
 
 
 def probe_flags(scratch):
@@ -735,6 +735,14 @@ def probe_flags(scratch):
         d.add_group({'id': 'A'})
         return 'svg:g' not in repr(d)
     fl['default_ns'] = guarded(g).get('ok') is True
+    # svg2paths on a path element without d (witness of C18_wsvg_empty_path_refuted)
+    from svgpathtools import svg2paths
+    p = os.path.join(scratch, 'p_nod.svg')
+    with open(p, 'w') as f:
+        f.write('<svg xmlns="%s"><path id="a" d="M0,0 L1,1"/><path id="b"/></svg>' % SVGNS)
+    r = guarded(lambda: [len(x) for x in svg2paths(p)[0]])
+    fl['nod_empty'] = r.get('ok') == [1, 0]
+    os.remove(p)
     return fl
 
 
